@@ -10,6 +10,22 @@
 EXTENDS OrbiterProps, Inputs
 CONSTANT MaxDepth
 
+D0 == "{\"denom\":\"transfer/channel-7/ustake\",\"amount\":"
+D1 == ",\"sender\":\"cosmos1sender\","
+\* ALMOST ICS-20 data naming the orbiter account as receiver that the transfer module's decoder REFUSES
+\* (unknown top-level field, keys in another case, a number where a string is due, an array): not ICS-20
+\* transfers, they go to the wrapped application untouched
+NearICS20 == {
+  D0 \o "\"9\"" \o D1 \o "\"receiver\":\"$ADDR_orb\",\"memo\":\"\",\"extra\":1}",
+  "{\"Denom\":\"transfer/channel-7/ustake\",\"Amount\":\"9\",\"Sender\":\"cosmos1sender\",\"Receiver\":\"$ADDR_orb\",\"Memo\":\"\"}",
+  D0 \o "9" \o D1 \o "\"receiver\":\"$ADDR_orb\",\"memo\":\"\"}",
+  "[" \o D0 \o "\"9\"" \o D1 \o "\"receiver\":\"$ADDR_orb\",\"memo\":\"\"}]" }
+\* unusual spellings the decoder ACCEPTS, with the meaning ibc-go gives them (a duplicated key: the last
+\* one wins; null memo = empty; data after the object is ignored): the orbiter must read them alike
+OddToUser == { "DATA:" \o D0 \o "\"9\"" \o D1 \o "\"receiver\":\"$ADDR_orb\",\"receiver\":\"$ADDR_U\",\"memo\":\"\"}" }
+OddToOrb  == { "DATA:" \o D0 \o "\"9\"" \o D1 \o "\"receiver\":\"$ADDR_U\",\"receiver\":\"$ADDR_orb\",\"memo\":\"\"}",
+               "DATA:" \o D0 \o "\"9\"" \o D1 \o "\"receiver\":\"$ADDR_orb\",\"memo\":\"\"} trailing",
+               "DATA:" \o D0 \o "\"9\"" \o D1 \o "\"receiver\":\"$ADDR_orb\",\"memo\":null}" }
 Rcvs == {"U", "M", "DUST", "INVALID", "EMPTY", "OTHER_HRP", "cctp", "F1", "ORB_MIXED"}
 Payload1 == [fw |-> FwINT("F2"), acts |-> <<FeeAct(<<Bps(100, "F1")>>)>>]
 NonOrbiter ==
@@ -19,6 +35,9 @@ NonOrbiter ==
   \cup { [Pkt(0, "U", "RET", "ustake", 9, "MUT") EXCEPT !.fw = Payload1.fw, !.acts = Payload1.acts, !.aid = "orbiter.pre_actions.0", !.op = "null"] }
   \cup { [Pkt(0, "U", "RAWDATA", "ustake", 9, "RAW") EXCEPT !.raw = m] : m \in {"", "{}", "[]", "{\"denom\":\"x\"}", "\\x00\\x01", "{\"orbiter\":{}}"} }
   \cup { [Pkt(0, "ORB", "RAWDATA", "ustake", 9, "RANDOM") EXCEPT !.op = c, !.v = n] : c \in {"BYTES", "JSONISH"}, n \in 1..5 }
+  \cup { [Pkt(0, "ORB", "RAWDATA", "ustake", 9, "RAW") EXCEPT !.raw = m] : m \in NearICS20 }
+  \cup { [Pkt(0, "U", "RET", "ustake", 9, "NONE") EXCEPT !.raw = m] : m \in OddToUser }
+  \cup { [Pkt(0, "ORB", "RET", "ustake", 9, "NONE") EXCEPT !.raw = m] : m \in OddToOrb }
   \cup { [Pkt(0, "U", "RET", "ustake", 9, "NONE") EXCEPT !.amtc = ac] : ac \in {"NEG", "EMPTY", "MAX256", "FRAC"} }
 AckTimeouts ==
   { AckIn(op, c, dn, b, 7, who) : op \in {"ackOk", "ackErr", "ackGarbage"}, c \in {0, 1}, dn \in {"NATIVE", "VOUCHER"}, b \in {"uusdc", "ustake"}, who \in {"U", "M"} }
